@@ -524,9 +524,15 @@ func (i *IfUnless) Evaluation(
 
 			i.ifNarrowTs = make(map[string][]base.T)
 
-			_, err := i.getBackupContext(e, *p, ctx)
+			elsifZaoriks, err := i.getBackupContext(e, *p, ctx)
 			if err != nil {
 				p.Fatal(ctx, err)
+			}
+
+			// what an elsif condition narrows is undone at the end as well; these
+			// run before the restores of the if condition, which restore last
+			for _, zaorik := range elsifZaoriks {
+				defer zaorik()
 			}
 
 			resultTs = append(resultTs, p.GetLastEvaluatedT())
